@@ -406,6 +406,12 @@ func (c09) Exec(in Sx) (Sx, bool) {
 		return Sx{}, false
 	}
 	attach := sc.Nth(0).Z != 0
+	// The table must be truthful and must cover what the validators can hash
+	// (the shrinker may not turn a case into one whose H differs from Go's).
+	if !c09TableCovers(in.Nth(5), remoteexecution.DigestFunction_Value(in.Nth(2).Nth(0).Int()), in.Nth(2).Nth(2).Z,
+		c09Content(evs), c09Prefix(c09Content(evs), in.Nth(2).Nth(2).Z)) {
+		return Sx{}, false
+	}
 	cbs := []Sx{}
 	source := buffer.UserProvided
 	if srcK.Z == 1 {
@@ -427,6 +433,24 @@ func (c09) Exec(in Sx) (Sx, bool) {
 	}
 	o := c09Consume(b, in.Nth(4))
 	return L(LBytes(o.data), AI(o.code), LInts(o.extra), L(cbs...), AI(closed()), LBytes(o.aux)), true
+}
+
+func c09TableCovers(t Sx, fn remoteexecution.DigestFunction_Value, size int64, need ...[]byte) bool {
+	have := map[string]bool{}
+	for _, e := range t.List {
+		c := e.Nth(0).Bytes()
+		h, ok := c09Hash(fn, size, c)
+		if !ok || string(h) != string(e.Nth(1).Bytes()) {
+			return false
+		}
+		have[string(c)] = true
+	}
+	for _, n := range need {
+		if !have[string(n)] {
+			return false
+		}
+	}
+	return true
 }
 
 func c09CheckTable(t Sx) bool {
@@ -617,7 +641,9 @@ func (c09) Gen(r *Rand, i int, tier string) Sx {
 	for m.Nth(0).Int() == 0 && m.Nth(1).Z < 0 || m.Nth(0).Int() == 5 && m.Nth(1).Z < 0 {
 		m = c09GenMethod(r, int(s.size))
 	}
-	tbl := c09Table(s.fn, s.size, s.good, s.content, c09Prefix(s.content, s.size))
+	evs, _ := c09ParseEvents(L(s.events...))
+	actual := c09Content(evs)
+	tbl := c09Table(s.fn, s.size, s.good, s.content, actual, c09Prefix(actual, s.size))
 	return L(AI(kind), AI(r.Pick([]int{0, 1, 1})), L(AI(int(s.fn)), LBytes(s.hash), A(s.size)),
 		L(AB(s.attach), L(s.events...)), m, tbl)
 }
